@@ -43,4 +43,32 @@ theorem xml_stack_bounded (cx c' : XCtx) (p : Option Bytes) (n inp : Bytes) (h :
 theorem xml_close_pops (cx c' : XCtx) (p : Option Bytes) (n : Bytes) (e : Bool) (inp : Bytes) (h : closeElement cx p n e inp = .ok c') :
     c'.elems.length ≤ cx.elems.length := closeElement_depth cx c' p n e inp h
 
+/-- **`lyxml_ctx_next`, the whole state machine, moves the read position forward inside the input**: in every state (element,
+    attribute, attribute content, element content, after an end tag, end), whatever the input, a successful step leaves as remaining
+    input a suffix of what it was given — `in->current` never moves back and never passes the terminating NUL. -/
+theorem xml_ctx_next_within_input (cx c' : XCtx) (h : ctxNext cx = .ok c') : c'.inp <:+ cx.inp :=
+  ctxNext_suffix cx c' h
+
+/-- consequence: the number of unread bytes never grows -/
+theorem xml_ctx_next_progress (cx c' : XCtx) (h : ctxNext cx = .ok c') : c'.inp.length ≤ cx.inp.length :=
+  (ctxNext_suffix cx c' h).length_le
+
+/-- **`xml_lexer_terminates`: fuel = length + 1 suffices.**  Every loop of the lexer that the model runs on fuel — the identifier
+    loop of `lyxml_parse_identifier`, the comment / PI skipping of `lyxml_skip_until_end_or_after_otag`, the attribute pre-scan of
+    `lyxml_open_element` and the namespace skipping of `lyxml_next_attribute` — consumes at least one byte per iteration: with ANY two
+    amounts of fuel above the length of the input the result is the same, so the `length + 1` the model passes never cuts a run short
+    (an "out of fuel" error is unreachable), and the C loops terminate. -/
+theorem xml_lexer_terminates (inp : Bytes) (f g : Nat) (hf : inp.length < f) (hg : inp.length < g) :
+    identRest f inp = identRest g inp ∧
+    (∀ depth, skipToTag depth f inp = skipToTag depth g inp) ∧
+    (∀ count isNs prev ns, openAttrs count f isNs prev ns inp = openAttrs count g isNs prev ns inp) ∧
+    nextAttribute f inp = nextAttribute g inp :=
+  ⟨identRest_fuel f g inp hf hg, fun d => skipToTag_fuel d f g inp hf hg,
+   fun c i p n => openAttrs_fuel c f g i p n inp hf hg, nextAttribute_fuel f g inp hf hg⟩
+
+/-- non-vacuity: a step on ` b="1">x</a>` (behind the element name `a`) reads the attribute name -/
+def demoCx : XCtx :=
+  ⟨[32, 98, 61, 34, 49, 34, 62, 120, 60, 47, 97, 62], .element, [(none, [97])], [], none, [97], [], false⟩
+example : (ctxNext demoCx).toOption.map (·.inp) = some [61, 34, 49, 34, 62, 120, 60, 47, 97, 62] := by decide +kernel
+
 end LyModel.Props.C05XmlLex
